@@ -108,7 +108,9 @@ class RefScreen:
             self._present()
 
     def _present(self):
-        self.frames.append((tuple(self.pixels), tuple(self.palette)))
+        black = (0, 0, 0)
+        rgb = tuple(self.palette[i] if i < len(self.palette) else black for i in self.pixels)
+        self.frames.append((tuple(self.pixels), tuple(self.palette), rgb))
 
 
 # ---------------------------------------------------------------------------------- program builder
@@ -251,7 +253,8 @@ def build_screen_case(rng, w):
     case = {'w': w, 'segments': [{'start': 0, 'length': nwords, 'data': words}], 'version': rng.choice([0, 1, 2, 3]),
             'lzma_preset': 0, 'input_bits': [], 'script': {}, 'fault': None, 'probe_words': [],
             'kind': 'screen', 'screen': {'size': [sw, sh], 'bpp': bpp, 'psize': psize, 'malformed': malformed,
-                                        'device': rng.choice(['screen', 'screen', 'pc']), 'png': rng.random() < 0.2},
+                                        'device': rng.choice(['screen', 'screen', 'pc']), 'png': rng.random() < 0.2,
+                                        'fb_words': [2 * fb_slot, 2 * (fb_slot + max_pixels)], 'pal_words': [2 * pal_slot, 2 * (pal_slot + 3 * max(psize, 1))]},
             'tags': ['screen']}
     return case
 
@@ -318,7 +321,8 @@ def make_real_screen_device(kind, frames_dir=None):
 
         def _present(self):
             super()._present()
-            self.frames.append((tuple(self.pixel_indices), tuple(tuple(c) for c in self.palette)))
+            self.frames.append((tuple(self.pixel_indices), tuple(tuple(c) for c in self.palette),
+                                tuple(tuple(c) for c in self.last_frame_rgb)))
 
     scr = RecordingScreen()
     if kind == 'pc':
